@@ -247,6 +247,25 @@ def run_case(case, ctx):
                       lambda: "SYNC profile with indices=%r%s differs from the sums over "
                               "the selected pairs" % (sel, rk))
 
+    # 'auto' with a selection: which trains are pooled for the threshold is not part of
+    # the statement, so no reference values - but value and profile of one and the same
+    # call must still fit together (value = average / totals ratio of that profile)
+    if auto and case["indices"] is not None:
+        sel = list(case["indices"])
+        Fs = ctx.call("multi_profile_indices_auto", fn["profile"], sts, indices=sel, **kw)
+        Vs = ctx.call("multi_value_indices_auto", fn["dist"], sts, indices=sel, **kw)
+        if fn["kind"] in ("pwc", "pwl"):
+            e = ctx.call("profile.avrg", Fs.avrg)
+            ok = ps.close(Vs, Fr(float(e)), 1e-9) if float(e) == float(e) else float(Vs) != float(Vs)
+        else:
+            y_ = sum(Fr(float(v)) for v in list(Fs.y)[1:-1])
+            m_ = sum(Fr(float(v)) for v in list(Fs.mp)[1:-1])
+            e = y_ / m_ if m_ > 0 else Fr(1)
+            ok = ps.close(Vs, e, 1e-12)
+        ctx.check(ok, "value_vs_own_profile_auto_indices",
+                  lambda: "%s with indices=%r and MRTS='auto': value %r, but the profile of the "
+                          "same call averages to %r" % (meas, sel, float(Vs), float(e)))
+
     # matrices ('auto' with `indices` is not asserted: pooling is unspecified)
     for ind in ((None,) if auto else (None, case["indices"])):
         sel = list(range(N)) if ind is None else list(ind)
